@@ -179,11 +179,19 @@ Proof.
         simpl. auto.
       * (* new tasks: they are handed over, and the schedule goes on *)
         set (rest := remove_nth i (r_run r)) in *.
-        set (r2 := enter false (num s1) ch' rest ts (collected s1) (r_log r) (r_fuel r)).
+        destruct (existsb prefail ts) eqn:Epf.
+        { (* a state pre-handler of a new task fails: submit fails, the run returns the error *)
+          inversion E; subst.
+          eexists s1, _. split.
+          { eapply cstar_trans; [exact P1|]. apply cstar_one. apply c_resolve_e; auto.
+            unfold resolve_eager. rewrite Enc. simpl r_run. rewrite Esp. rewrite Bool.eqb_reflx. simpl.
+            rewrite Ef. simpl r_ch. rewrite Ec. unfold enter. rewrite Epf. reflexivity. }
+          simpl. auto. }
+        set (r2 := mkrl ch' ts (rest ++ ts) (collected s1) (r_log r ++ log_of ts) (r_fuel r) PWait None).
         assert (St2 : cstep false Dag g (s1, set_ph r PGot) (s1, r2)).
         { apply c_resolve_e; auto.
           unfold resolve_eager. rewrite Enc. simpl r_run. rewrite Esp. rewrite Bool.eqb_reflx. simpl.
-          rewrite Ef. simpl r_ch. rewrite Ec. reflexivity. }
+          rewrite Ef. simpl r_ch. rewrite Ec. unfold enter. rewrite Epf. reflexivity. }
         assert (Cr2 : creach false Dag g F (s1, r2)) by (eapply cr_step; eassumption).
         (* freshness of the new keys *)
         pose proof (creach_lkid g Hnd Hstart F _ Cr2) as K. simpl in K. specialize (K eq_refl).
@@ -240,7 +248,8 @@ Proof.
   pose proof (cr_init false Dag g F) as C0. unfold rl_init in C0.
   destruct (start_next Dag g) as [v|ts ch] eqn:Es.
   - inversion E; subst. eexists init, _. split; [exact C0|]. simpl. auto.
-  - unfold enter in C0.
+  - unfold enter in C0. destruct (existsb prefail ts) eqn:Epf.
+    { inversion E; subst. eexists init, _. split; [exact C0|]. simpl. auto. }
     set (r0 := mkrl ch ts ([] ++ ts) [] ([] ++ log_of ts) F PWait None) in *.
     assert (Ndt : NoDup (ids_of ts)) by (eapply calc_next_tasks_ok; [exact Hnd|exact Es]).
     destruct (submit_all ts init r0) as (s1 & P1 & Q1 & N1 & C1 & E1); auto.
